@@ -102,7 +102,7 @@ impl Property for C23 {
     const RULE: &'static str = "byte strings 0..4096 (raw, plausible header + random tail, reference-built v3/v4/v5 packets with extension-field chains, NTS authenticators and MACs, mutations/truncations/extensions of those, and well-formed headers followed by raw extension-field chains whose declared lengths are equal to / slightly off / unrelated to the bytes present, incl. authenticator fields with small nonce/ciphertext length fields) × three key contexts (none, client session key, server cookie keys incl. rotated key sets); oracle = NtpPacket::deserialize and the packet accessors return (no panic); non-trivial = input of at least 48 bytes with a decodable version field";
     const ASSUMPTIONS: &'static [&'static str] = &["release semantics (debug assertions off); a panic is observed through unwinding"];
     const QUICK_CASES: u32 = 1_000_000;
-    const THOROUGH_CASES: u32 = 20_000_000;
+    const THOROUGH_CASES: u32 = 80_000_000;
     fn strategy(_t: Tier) -> BoxedStrategy<PktCase> {
         pkt_strategy(4097)
     }
@@ -149,7 +149,7 @@ impl Property for C24 {
     const RULE: &'static str = "inputs as for C23 without keys; for every input the decoder accepts: re-encode (64 KiB buffer) must succeed, decoding the re-encoded bytes must succeed and yield a packet whose encoding equals those bytes and which decodes to itself (stable after one normalising round); non-trivial = accepted packet with at least one extension field or a MAC (distinct inputs)";
     const ASSUMPTIONS: &'static [&'static str] = &["p1 == p2 is not demanded: v4 padding legitimately becomes field data on the first round", "release semantics"];
     const QUICK_CASES: u32 = 600_000;
-    const THOROUGH_CASES: u32 = 15_000_000;
+    const THOROUGH_CASES: u32 = 18_000_000;
     fn strategy(_t: Tier) -> BoxedStrategy<PktCase> {
         pkt_strategy(1500).prop_map(|mut c| { c.ctx = 0; c }).boxed()
     }
